@@ -105,4 +105,78 @@ Theorem C03_FileHasher_yields_what_it_stores : forall (H256 : bytes -> bytes) B,
 Proof. exact file_hasher_yields. Qed.
 Print Assumptions C03_FileHasher_yields_what_it_stores.
 
-(* creators-level theorems: to be added from Proofs/CreatorsProofs.v *)
+(* ---------------------------------------------------------------------------------------------- *)
+(* creator level (Model/Creators.v, tied to torrent.py byte for byte by the unit correspondence of        *)
+(* harness/props/creators_common.py).  [hybrid_output H1 H256 B pl o name t m]: m is the dictionary        *)
+(* written for payload t by TorrentFileHybrid or by TorrentAssembler (meta version 3).  [dir_files es] =   *)
+(* the files of the directory in file-tree order (per-directory sorted names) as (path, content);          *)
+(* [is_pad v] = the entry has an "attr" key; [abs_entry v] = (is_pad v, its length); [file_entry rel n] =   *)
+(* {"length": n, "path": rel}; [pad_entry n] = {"attr": "p", "length": n, "path": [".pad", str(n)]};        *)
+(* [leaves_v [] ft] = leaves of the file tree in dictionary order; [pad_to pl d] = d ++ zeros up to the     *)
+(* next multiple of pl.                                                                                    *)
+(* ---------------------------------------------------------------------------------------------- *)
+From TF Require Import Model.Bencode Model.Hasher Model.Creators Proofs.HasherCorrect
+                       Proofs.CreatorsProofs Proofs.CreatorsProofs2.
+
+(* info["files"] exactly: for each file in file-tree order its entry, followed -- iff its length is not a multiple
+   of the piece length, the last file included -- by a padding entry of the missing length; no info["length"] *)
+Theorem C03_files_list_exact : forall (H1 H256 : bytes -> bytes) B, 0 < B -> forall k pl, pl = B * 2 ^ k ->
+  forall o name es m, wf_node (Dir es) -> hybrid_output H1 H256 B pl o name (Dir es) m ->
+  info_get k_files m = Some (BList (flat_map (v1_aligned_entries pl) (dir_files es))) /\
+  info_get k_length m = None.
+Proof. exact hybrid_files_exact. Qed.
+Print Assumptions C03_files_list_exact.
+
+(* the v1 view and the v2 view list the same files in the same order with the same lengths: dropping the padding
+   entries of info["files"] leaves one entry per leaf of info["file tree"], in dictionary order *)
+Theorem C03_same_files_same_order : forall (H1 H256 : bytes -> bytes) B, 0 < B -> forall k pl, pl = B * 2 ^ k ->
+  forall o name es m, wf_node (Dir es) -> hybrid_output H1 H256 B pl o name (Dir es) m ->
+  exists l ft,
+    info_get k_files m = Some (BList l) /\ info_get k_file_tree m = Some ft /\
+    filter (fun v => negb (is_pad v)) l = map (fun f => file_entry (fst f) (length (snd f))) (dir_files es) /\
+    leaves_v [] ft = map (fun f => (fst f, leaf_value H256 B (snd f))) (dir_files es).
+Proof. exact hybrid_same_files_same_order. Qed.
+Print Assumptions C03_same_files_same_order.
+
+(* every non-padding entry starts on a piece boundary of the v1 stream *)
+Theorem C03_files_start_on_piece_boundary : forall (H1 H256 : bytes -> bytes) B, 0 < B -> forall k pl,
+  pl = B * 2 ^ k -> forall o name es m l pre f post,
+  wf_node (Dir es) -> hybrid_output H1 H256 B pl o name (Dir es) m ->
+  info_get k_files m = Some (BList l) -> l = pre ++ f :: post -> is_pad f = false ->
+  entries_total (map abs_entry pre) mod pl = 0.
+Proof. exact hybrid_files_start_on_piece_boundary. Qed.
+Print Assumptions C03_files_start_on_piece_boundary.
+
+(* every padding entry is {"attr": "p", "length": n, "path": [".pad", str(n)]} with n the gap (0 < n < pl) from the
+   end of the payload entry directly before it to the next piece boundary, where it ends *)
+Theorem C03_pad_entries_marked : forall (H1 H256 : bytes -> bytes) B, 0 < B -> forall k pl,
+  pl = B * 2 ^ k -> forall o name es m l pre f post,
+  wf_node (Dir es) -> hybrid_output H1 H256 B pl o name (Dir es) m ->
+  info_get k_files m = Some (BList l) -> l = pre ++ f :: post -> is_pad f = true ->
+  exists n, f = pad_entry n /\ 0 < n < pl /\
+    (exists pre' rel len, pre = pre' ++ [file_entry rel len] /\ n = pl - len mod pl) /\
+    (entries_total (map abs_entry pre) + n) mod pl = 0.
+Proof. exact hybrid_pad_entries_marked. Qed.
+Print Assumptions C03_pad_entries_marked.
+
+(* info["pieces"] is SHA-1 of the successive piece-length slices of the stream info["files"] describes: file bytes
+   for payload entries, zeros for padding entries -- i.e. every file zero-extended to a piece boundary *)
+Theorem C03_pieces_hash_that_stream : forall (H1 H256 : bytes -> bytes) B, 0 < B -> forall k pl, pl = B * 2 ^ k ->
+  forall o name es m, wf_node (Dir es) -> hybrid_output H1 H256 B pl o name (Dir es) m ->
+  let datas := map snd (dir_files es) in
+  let entries := flat_map (v1_aligned_entries pl) (dir_files es) in
+  info_get k_pieces m =
+    Some (BStr (concat (map H1 (chunks pl (stream_of_entries (map abs_entry entries) datas))))) /\
+  stream_of_entries (map abs_entry entries) datas = concat (map (pad_to pl) datas).
+Proof. exact hybrid_pieces_hash_that_stream. Qed.
+Print Assumptions C03_pieces_hash_that_stream.
+
+(* single-file payload: info["length"] = its size, no files list, pieces = SHA-1 piece hashing of the file alone
+   (no zero extension of the last piece: the D7 repair) *)
+Theorem C03_single_file : forall (H1 H256 : bytes -> bytes) B, 0 < B -> forall k pl, pl = B * 2 ^ k ->
+  forall o name (d : bytes) m, hybrid_output H1 H256 B pl o name (File d) m ->
+  info_get k_length m = Some (BInt (Z.of_nat (length d))) /\
+  info_get k_files m = None /\
+  info_get k_pieces m = Some (BStr (concat (map H1 (chunks pl d)))).
+Proof. exact hybrid_single_file. Qed.
+Print Assumptions C03_single_file.
